@@ -28,6 +28,8 @@ struct Local {
     accepted: BTreeMap<usize, u64>,
     rejected: BTreeMap<usize, u64>,
     err_kinds: BTreeMap<(usize, String), u64>,
+    skipped_unsafe: BTreeMap<usize, u64>,
+    panicked: BTreeMap<(usize, String), u64>,
     violations: Vec<(String, serde_json::Value)>,
     noncanon_documented: BTreeMap<String, u64>,
     keys: Vec<u128>,
@@ -45,6 +47,12 @@ impl Local {
         }
         for (k, v) in o.err_kinds {
             *self.err_kinds.entry(k).or_default() += v;
+        }
+        for (k, v) in o.skipped_unsafe {
+            *self.skipped_unsafe.entry(k).or_default() += v;
+        }
+        for (k, v) in o.panicked {
+            *self.panicked.entry(k).or_default() += v;
         }
         for (k, v) in o.noncanon_documented {
             *self.noncanon_documented.entry(k).or_default() += v;
@@ -65,7 +73,23 @@ impl Local {
 fn judge(table: &[Codec], ci: usize, input: &[u8], phase: &str, orig: Option<(&[u8], &str)>, l: &mut Local) {
     let c = &table[ci];
     l.evals += 1;
-    match (c.decode)(input) {
+    if let Some(f) = c.unsafe_in_process {
+        if f(input) {
+            // declared collection count > remaining input: never a valid encoding; the real decoder
+            // would pre-allocate from it (defect D4, decided by C13 in a child process)
+            *l.skipped_unsafe.entry(ci).or_default() += 1;
+            return;
+        }
+    }
+    let res = match mc::catch(|| (c.decode)(input)) {
+        Ok(x) => x,
+        Err(msg) => {
+            // a panicking decoder did not accept the input; totality is C13's property
+            *l.panicked.entry((ci, msg.chars().take(60).collect())).or_default() += 1;
+            return;
+        }
+    };
+    match res {
         Err(kind) => {
             *l.rejected.entry(ci).or_default() += 1;
             *l.err_kinds.entry((ci, kind)).or_default() += 1;
@@ -123,6 +147,12 @@ fn flush(r: &Report, table: &[Codec], l: Local, phase: &str) -> (BTreeMap<usize,
         kinds.entry(table[*ci].name.clone()).or_default().push(format!("{k}×{n}"));
     }
     r.note(&format!("{phase}:typed_errors_per_codec"), json!(kinds));
+    for (ci, n) in &l.skipped_unsafe {
+        r.counter(&format!("{phase}:skipped_count_exceeds_input(C13-D4):{}", table[*ci].name), *n);
+    }
+    for ((ci, msg), n) in &l.panicked {
+        r.counter(&format!("{phase}:decoder_panicked(C13):{}:{}", table[*ci].name, msg), *n);
+    }
     let mut acc = serde_json::Map::new();
     for (ci, c) in table.iter().enumerate() {
         let a = l.accepted.get(&ci).copied().unwrap_or(0);
@@ -408,6 +438,7 @@ fn replay(r: &Report, path: &std::path::Path, table: &[Codec]) {
 
 fn main() {
     let r = Report::new("C12", Level::Exploration);
+    mc::quiet_panics();
     let table = codecs::table();
     if let Some(p) = r.replay.clone() {
         replay(&r, &p, &table);
